@@ -308,6 +308,11 @@ func Take[A any](ctx context.Context, in <-chan A, n int) <-chan A {
 	go func() {
 		defer close(out)
 
+		// nothing to take: do not consume the input at all
+		if n <= 0 {
+			return
+		}
+
 		var a A
 		for a = range in {
 
